@@ -590,8 +590,9 @@ class ULPITransmitTranslator(Elaboratable):
 
         with m.FSM(domain="usb") as fsm:
 
-            # Mark ourselves as busy whenever we're not in idle.
-            m.d.comb += self.busy.eq(~fsm.ongoing('IDLE'))
+            # Mark ourselves as busy whenever we're not in idle; or whenever we've already claimed the
+            # bus to present our transmit command, and are just waiting for the PHY to accept it.
+            m.d.comb += self.busy.eq(~fsm.ongoing('IDLE') | self.ulpi_out_req)
 
             # IDLE: our transmitter is ready and
             with m.State('IDLE'):
@@ -624,6 +625,11 @@ class ULPITransmitTranslator(Elaboratable):
                     # Once the PHY has accepted the command byte, we're ready to move into our main transmit state.
                     with m.If(self.ulpi_nxt):
                         m.next = 'TRANSMIT'
+
+                # If we can't (or can no longer) present our command -- e.g. because the PHY has claimed the bus,
+                # or a register write has started in the same cycle -- release the bus until we can.
+                with m.Else():
+                    m.d.usb += self.ulpi_out_req.eq(0)
 
 
             # TRANSMIT: we're in the body of a transmit; the UTMI and ULPI interface signals
